@@ -63,6 +63,22 @@ def bounded_cases(ctx: Ctx):
                         c["by_chunks"] = [c["chunks"]]
                         c["method"] = "map-reduce" if c["method"] == "cohorts" else c["method"]
                 cases.append(c)
+    # partial-axis reductions (2-D labels reduced along the last axis): every row has its own missing / unrequested
+    # labels and its own absent requested labels
+    for func in ("sum", "nansum", "count", "max", "nanmin", "mean", "first", "nanlast", "prod", "any"):
+        for rep in range(6 if ctx.quick else 30):
+            i += 1
+            m = 4
+            lab = np.array([[[5.0, 15.0, 25.0, np.nan, 45.0][rng.integers(5)] for _ in range(m)] for _ in range(2)])
+            dt = "bool" if func == "any" else "float64"
+            v = np.stack([gen.values_for(func, m, rng, 8, dt)[rng.integers(2 if dt == "bool" else 8)] for _ in range(2)])
+            fill = [-5, 0, "nan"][i % 3] if func != "any" else False
+            c = dict(array=enc(v), by=[enc(lab)], func=func, expected_groups=[[5.0, 15.0, 25.0]], fill_value=fill, axis=-1,
+                     engine=[None, "numpy", "flox"][i % 3], sort=True)
+            if i % 2 and func not in ("first",):
+                c["chunks"] = [[1, 1] if i % 4 == 1 else [2], [[2, 2], [1, 3], [4]][i % 3]]
+                c["method"] = "map-reduce"
+            cases.append(c)
     return cases
 
 
